@@ -95,7 +95,8 @@ def run(ms, keep=False, verbose=True, target=None):
                 else:
                     exp = m['expect']
                     if r.returncode != 1 or not any(any(e in l for e in exp) for l in fired):
-                        status, note = 'MISSED', (prop + ': ' + '\n'.join(fired)[:400]) or 'no rule fired'
+                        status, note = 'MISSED', (prop + ': rc=%d ' % r.returncode + '\n'.join(fired)[:400] +
+                                                  (' || ' + out[-300:] if not fired else ''))
                     elif m.get('must_name') and not any(m['must_name'] in l for l in fired):
                         status, note = 'WRONG-SITE', '\n'.join(fired)[:400]
             res.append((m['name'], status, note))
